@@ -65,20 +65,60 @@ def concrete : List String := [
   "NestedSampler", "ImportanceNestedSampler", "OrderedSamples", "FlowProposal", "RejectionProposal", "AnalyticProposal",
   "ImportanceFlowProposal", "ImportanceFlowModel", "FlowModel", "_NSIntegralState", "_INSIntegralState"]
 
-/-- Every attribute in the property's list exists in its class (the table is not stale) and is either carried by the
-pickle — not in the exclusion set of the `__getstate__` in force, not overwritten with `None`/`False` — or is assigned
-again by the resume path (or on first use).  Checked against the tables generated from the current sources. -/
-theorem result_fields_survive : resultFields.all (survives tables sites) = true := by decide +kernel
+/-- Carried attributes of the property's list that the resume path itself assigns (so "the pickle carries it" does not
+by itself mean "the resumed sampler has the pickled value"); each with the reason the assignment is harmless.  The
+values of all of them are compared by the round-trip tie of harness/c12.py. -/
+def overwrittenOnResume : List (String × String) := [
+  -- tuple parts: `__setstate__` re-attaches the pickled objects themselves
+  ("ImportanceNestedSampler", "training_samples"), ("ImportanceNestedSampler", "iid_samples"),
+  ("ImportanceNestedSampler", "proposal"), ("ImportanceFlowProposal", "flow"),
+  -- `NestedSampler.initialise`: `finalised = False` only when the stopping condition is not met
+  ("NestedSampler", "finalised"),
+  -- `NestedSampler.update_state` (pre-loop call): block counters reset only at multiples of nlive in the uninformed phase
+  ("NestedSampler", "block_acceptance"), ("NestedSampler", "block_iteration"),
+  -- `FlowProposal.initialise(resumed=True)` clears `populated`, `NestedSampler.check_resume` restores it (`pool_flag_restored`)
+  ("FlowProposal", "populated"),
+  -- `FlowProposal.initialise`: `fuzz` recomputed only when the proposal is not initialised (not on resume)
+  ("FlowProposal", "fuzz"),
+  -- `update_state` marks the population as checked (it is already True in a checkpoint written by update_state)
+  ("FlowProposal", "_checked_population"),
+  -- `ImportanceFlowModel.update_weights_path`: the same `level_i/model.pt` paths rebuilt under the output directory
+  ("ImportanceFlowModel", "weights_files"),
+  -- site `FlowModel.setup_from_input_dict` (base class): runs when a FlowModel is constructed, i.e. on the standard
+  -- sampler's resume, not on the importance sampler's (the lineage over-approximates)
+  ("ImportanceFlowModel", "training_config")]
+
+/-- TABLE FACT (about the tables generated from the current sources; what pickle itself does is an assumption observed
+by the round-trip tie): every attribute in the property's list exists in its class and
+* if the `__getstate__` in force drops it (exclusion set, `del`, `= None/False`), the resume path or a first-use site
+  assigns it again — any assignment counts, the value is checked by the tie;
+* if the pickle carries it, NO site of the resume path assigns it, except the attributes listed in
+  `overwrittenOnResume`.
+In-place mutations by callees (e.g. `update_state` appending to the history — the known finding) are not table sites. -/
+theorem result_fields_survive : resultFields.all (survives tables sites overwrittenOnResume) = true := by decide +kernel
 
 example : ("OrderedSamples", "log_q") ∈ resultFields ∧ dropped tables "OrderedSamples" "log_q" = true
-    ∧ dropped tables "NestedSampler" "history" = false ∧ dropped tables "FlowProposal" "flow" = true := by decide +kernel
+    ∧ dropped tables "NestedSampler" "history" = false ∧ touched tables sites "NestedSampler" "history" = false
+    ∧ dropped tables "FlowProposal" "flow" = true := by decide +kernel
 
-/-- `result_fields_survive` is not vacuous: without the resume sites the dropped density table, the flow and the
-model would not survive, and an attribute that does not exist is rejected. -/
+/-- `result_fields_survive` is not vacuous: without the resume sites the dropped density table, the flow and the model
+would not survive; an attribute that does not exist is rejected; and without its exemption a carried attribute that the
+resume path overwrites (`populated`) is rejected. -/
 theorem result_fields_survive_fails_without_resume_sites :
-    survives tables [] ("OrderedSamples", "log_q") = false ∧ survives tables [] ("FlowProposal", "flow") = false
-    ∧ survives tables [] ("NestedSampler", "model") = false ∧ survives tables sites ("NestedSampler", "no_such_field") = false := by
+    survives tables [] overwrittenOnResume ("OrderedSamples", "log_q") = false
+    ∧ survives tables [] overwrittenOnResume ("FlowProposal", "flow") = false
+    ∧ survives tables [] overwrittenOnResume ("NestedSampler", "model") = false
+    ∧ survives tables sites overwrittenOnResume ("NestedSampler", "no_such_field") = false
+    ∧ survives tables sites [] ("FlowProposal", "populated") = false := by
   decide +kernel
+
+/-- The exemption list is exact: each entry is in the property's list, is carried by the pickle and is assigned by
+the resume path (no stale exemption hides a change). -/
+theorem overwritten_exemptions_exact :
+    overwrittenOnResume.all (fun cf => resultFields.contains cf && !dropped tables cf.1 cf.2 && touched tables sites cf.1 cf.2) = true := by
+  decide +kernel
+
+example : overwrittenOnResume.length = 12 := by decide
 
 /-- Everything any `__getstate__` of the chain drops (exclusion sets, `del state[...]`, `state[k] = None/False` on an
 attribute) has a site on the resume path (or a first-use site) that assigns it again. -/
@@ -129,6 +169,12 @@ theorem loops_rearm_start :
   decide +kernel
 
 example : loopResetsStart.length = 2 := by decide +kernel
+
+/-- whether `resume_from_pickled_sampler` itself re-arms `sampling_start_time` is recorded in the generated
+`resumeRearmsStart` (false at the time of writing: between the resume and the loop entry the sampler carries the pickled
+start, which is why `sampling_time_cumulative` needs `ckptInLoop`); the driver passes it to the model as `rearmOnResume` -/
+example : (sites.any fun s => s.attr == "sampling_start_time" && s.site == "NestedSampler.nested_sampling_loop") = true := by
+  decide +kernel
 
 /-- The calls that make up the resume path are present: file → sampler → proposals → flow(s) and weights, the
 proposal pointer and pool flag (`initialise`, `check_resume`), the density tables. -/
@@ -182,10 +228,12 @@ def runStateFields : List (String × String) := [
   ("_NSIntegralState", "logLs"), ("_NSIntegralState", "log_vols"), ("_NSIntegralState", "logZ"), ("_NSIntegralState", "oldZ"),
   ("_NSIntegralState", "logw"), ("_NSIntegralState", "info"), ("_NSIntegralState", "gradients"), ("_NSIntegralState", "nlive")]
 
-/-- Composition fact used by C01/C13 ("checkpoint/resume restores the pickled state"): for EVERY state of the sampler
-(any values) and whatever the resume path derives, `resume ∘ checkpoint` returns each attribute of the C01/C13/C02 run
-state unchanged — because, on the tables generated from the current sources, none of them is dropped by the
-`__getstate__` in force and none is assigned by the resume path. -/
+/-- TABLE FACT + ASSUMPTION.  Table fact (decided over the tables generated from the current sources): none of the
+attributes of the C01/C13/C02 run state is dropped by the `__getstate__` in force, none is assigned by any site of the
+resume path (including the pre-loop `update_state`), all exist.  Assumption: pickling is faithful — the state is modelled
+as an attribute ↦ value list, `pickleState` keeps the non-dropped entries unchanged and `resumeState` lets only the
+resume sites overwrite; under that model `resume ∘ checkpoint` returns each such attribute unchanged, for every state.
+That pickle/torch really reproduce the values is observed by the round-trip and chain ties, not proved. -/
 theorem run_state_survives_checkpoint_resume {α : Type} (cf : String × String) (h : cf ∈ runStateFields)
     (s fresh : List (String × α)) :
     (resumeState tables sites cf.1 fresh (pickleState tables cf.1 s)).lookup cf.2 = s.lookup cf.2 := by
@@ -199,6 +247,11 @@ example : (resumeState tables sites "NestedSampler" [("iteration", 0), ("proposa
     (pickleState tables "NestedSampler" [("iteration", 35), ("model", 1), ("proposal", 2)])).lookup "iteration" = some 35 := by
   decide +kernel
 
+/-- the theorem applied to the iteration counter of an arbitrary state -/
+example (s fresh : List (String × Nat)) :
+    (resumeState tables sites "NestedSampler" fresh (pickleState tables "NestedSampler" s)).lookup "iteration" = s.lookup "iteration" :=
+  run_state_survives_checkpoint_resume ("NestedSampler", "iteration") (by decide) s fresh
+
 /-- The two hypotheses behind `run_state_survives_checkpoint_resume` are needed: a dropped attribute (`model`) does not
 come back from the pickle, and an attribute the resume path assigns (`proposal`) takes the derived value. -/
 theorem run_state_survives_fails_without_pickled_untouched :
@@ -210,9 +263,12 @@ theorem run_state_survives_fails_without_pickled_untouched :
 
 /-! ## (b) the accounts, for every history -/
 
+/-- the configuration of the current sources: both loops re-arm the start, the resume does not, fresh model -/
+def codeCfg : Cfg := ⟨true, false, true⟩
+
 /-- Likelihood evaluations and likelihood time are cumulative: after ANY history, if a process is alive and every
-launch got a fresh model, the model's counters equal the sums over the retained `run` steps — those covered by the last
-completed checkpoint of the lineage plus those since the last launch/checkpoint — and the checkpoint file carries exactly
+resume got a fresh model, the model's counters equal the sums over the retained `run` steps — those covered by the last
+completed checkpoint of the lineage plus those since the last resume/checkpoint — and the checkpoint file carries exactly
 the committed part. -/
 theorem evals_cumulative (c : Cfg) (hf : c.freshModel = true) (h : List Op) :
     let s := exec c {} h
@@ -225,75 +281,103 @@ theorem evals_cumulative (c : Cfg) (hf : c.freshModel = true) (h : List Op) :
   simp only [Log.retained, sumE_append, sumL_append]
   exact ⟨hi.liveE ha, hi.liveL ha⟩
 
-example : (exec ⟨true, true⟩ {} [.launch, .run 100 7 3, .checkpoint, .run 50 4 2, .kill, .down 9, .launch, .run 20 5 1]).mEvals = 120
-    ∧ (logOf {} [.launch, .run 100 7 3, .checkpoint, .run 50 4 2, .kill, .down 9, .launch, .run 20 5 1]).retained
-        = [(100, 7, 3), (20, 5, 1)] := by decide
+def hist1 : List Op := [.resume, .run 100 0 3, .enterLoop, .run 40 7 3, .checkpoint, .run 50 4 2, .kill, .down 9,
+  .resume, .enterLoop, .run 20 5 1]
+
+example : (exec codeCfg {} hist1).mEvals = 160 ∧ (logOf {} hist1).retained = [(100, 0, 3), (40, 7, 3), (20, 5, 1)] := by decide
+
+/-- the theorem applied to a concrete history with a kill and a resume -/
+example : (exec codeCfg {} hist1).mEvals = sumE (logOf {} hist1).retained :=
+  ((evals_cumulative codeCfg rfl hist1).1 (by decide)).1
 
 /-- The hypothesis "fresh model" is needed: handing the resume a model object that already carries the dead
 process's counter counts those evaluations twice (`+=` on a non-zero counter). -/
 theorem evals_cumulative_fails_without_fresh_model :
-    (exec ⟨true, false⟩ {} [.launch, .run 5 1 1, .checkpoint, .kill, .launch]).mEvals = 10
-    ∧ sumE (logOf {} [.launch, .run 5 1 1, .checkpoint, .kill, .launch]).retained = 5 := by decide
+    (exec ⟨true, false, false⟩ {} [.resume, .run 5 1 1, .checkpoint, .kill, .resume]).mEvals = 10
+    ∧ sumE (logOf {} [.resume, .run 5 1 1, .checkpoint, .kill, .resume]).retained = 5 := by decide
 
 /-- Never double counted: the retained steps are a sub-list (same order, each at most once) of the steps live
 processes actually performed; in particular the reported totals never exceed what was performed. -/
 theorem accounts_never_double_counted (h : List Op) :
-    ((logOf {} h).retained).Sublist (performed false h) := by
+    ((logOf {} h).retained).Sublist (performed false false h) := by
   simpa [Log.retained] using retained_sublist h {}
 
-example : (performed false [.launch, .run 1 1 1, .kill, .run 9 9 9, .launch, .run 2 2 2]) = [(1, 1, 1), (2, 2, 2)] := by decide
+example : (performed false false [.resume, .run 1 1 1, .kill, .run 9 9 9, .resume, .enterLoop, .run 2 2 2]) = [(1, 0, 1), (2, 2, 2)] := by
+  decide
+
+example : ((logOf {} hist1).retained).Sublist (performed false false hist1) := accounts_never_double_counted hist1
 
 /-- Never reset: in a well-formed history without a kill nothing is discarded — the totals are the sums over every
 step performed. -/
 theorem accounts_never_reset (c : Cfg) (hf : c.freshModel = true) (h : List Op)
     (hw : wellFormed false h = true) (hk : ∀ op ∈ h, op ≠ Op.kill) (ha : (exec c {} h).alive = true) :
-    (exec c {} h).mEvals = sumE (performed false h) ∧ (exec c {} h).mLtime = sumL (performed false h) := by
+    (exec c {} h).mEvals = sumE (performed false false h) ∧ (exec c {} h).mLtime = sumL (performed false false h) := by
   have h1 := (evals_cumulative c hf h).1 ha
   have h2 := retained_all_without_kill h {} (by simp) hw hk
   simp only [Log.retained] at h1 h2
   simp only [h2] at h1
   simpa using h1
 
-example : wellFormed false [.launch, .run 3 1 1, .checkpoint, .run 4 1 1, .checkpoint] = true := by decide
+def hist2 : List Op := [.resume, .run 3 0 1, .enterLoop, .run 3 1 1, .checkpoint, .run 4 1 1, .checkpoint]
+
+example : (exec codeCfg {} hist2).mEvals = sumE (performed false false hist2) :=
+  (accounts_never_reset codeCfg rfl hist2 (by decide) (by decide) (by decide)).1
 
 /-- Losses come from kills only and are bounded by what was done after the last checkpoint: the hypothesis "no kill"
 of `accounts_never_reset` is needed. -/
 theorem accounts_never_reset_fails_without_no_kill :
-    (exec ⟨true, true⟩ {} [.launch, .run 3 1 1, .checkpoint, .run 4 1 1, .kill, .launch]).mEvals = 3
-    ∧ sumE (performed false [.launch, .run 3 1 1, .checkpoint, .run 4 1 1, .kill, .launch]) = 7 := by decide
+    (exec codeCfg {} [.resume, .run 3 1 1, .checkpoint, .run 4 1 1, .kill, .resume]).mEvals = 3
+    ∧ sumE (performed false false [.resume, .run 3 1 1, .checkpoint, .run 4 1 1, .kill, .resume]) = 7 := by decide
 
-/-- Sampling time is cumulative when the loop re-arms its start (both samplers, `loops_rearm_start`):
-after ANY history the current sampling time of a live sampler is the sum of the ticks of the retained steps (down-time
-and discarded segments excluded), `sampling_time` itself and the file carry the committed part. -/
-theorem sampling_time_cumulative (c : Cfg) (hf : c.freshModel = true) (hr : c.resetStart = true) (h : List Op) :
+/-- Sampling time is cumulative when the loop re-arms its start (both samplers, `loops_rearm_start`) and every checkpoint
+is written from inside the sampling loop (`ckptInLoop`: periodic, on-training and final checkpoints are): after ANY such
+history the current sampling time of a sampler inside the loop is the sum of the in-loop ticks of the retained steps
+(down-time, discarded segments and time before the loop entry excluded); `sampling_time` itself and the file carry the
+committed part. -/
+theorem sampling_time_cumulative (c : Cfg) (hf : c.freshModel = true) (hr : c.resetStart = true) (h : List Op)
+    (hk : ckptInLoop false false h = true) :
     let s := exec c {} h
     let l := logOf {} h
-    (s.alive = true → s.current = sumT l.retained ∧ s.stime = sumT l.committed)
+    (s.alive = true → s.stime = sumT l.committed ∧ (s.inLoop = true → s.current = sumT l.retained))
     ∧ (∀ sv, s.file = some sv → sv.stime = sumT l.committed) := by
   intro s l
-  have hi : InvT s l := invT_exec c hf hr h {} {} invC_init invT_init
-  refine ⟨fun ha => ?_, hi.fileT⟩
+  have hi : InvT s l := invT_exec c hf hr h {} {} invC_init invT_init hk
+  refine ⟨fun ha => ⟨hi.liveS ha, fun hil => ?_⟩, hi.fileT⟩
   have h1 := hi.liveS ha
-  have ⟨_, h3⟩ := hi.liveP ha
-  refine ⟨?_, h1⟩
+  have ⟨_, h3⟩ := hi.liveP ha hil
   simp only [St.current, Log.retained, sumT_append]
   omega
 
-example : (exec ⟨true, true⟩ {} [.launch, .run 1 5 0, .checkpoint, .run 1 3 0, .checkpoint, .kill, .down 10, .launch,
-    .run 1 2 0, .checkpoint]).stime = 10 := by decide
+def hist3 : List Op := [.resume, .enterLoop, .run 1 5 0, .checkpoint, .run 1 3 0, .checkpoint, .kill, .down 10, .resume,
+  .enterLoop, .run 1 2 0, .checkpoint]
+
+example : (exec codeCfg {} hist3).stime = 10 := by decide
+
+example : (exec codeCfg {} hist3).stime = sumT (logOf {} hist3).committed :=
+  ((sampling_time_cumulative codeCfg rfl rfl hist3 (by decide)).1 (by decide)).1
 
 /-- The hypothesis `resetStart` is needed (a fact about the model; both samplers meet it, see `loops_rearm_start`): a loop
 that does not re-arm `sampling_start_time` leaves the resumed sampler with the pickled start, so the next checkpoint adds
 the last segment again plus the whole down-time (here 23 instead of 10). -/
 theorem sampling_time_cumulative_fails_without_reset :
-    (exec ⟨false, true⟩ {} [.launch, .run 1 5 0, .checkpoint, .run 1 3 0, .checkpoint, .kill, .down 10, .launch,
-      .run 1 2 0, .checkpoint]).stime = 23
-    ∧ sumT (logOf {} [.launch, .run 1 5 0, .checkpoint, .run 1 3 0, .checkpoint, .kill, .down 10, .launch,
-      .run 1 2 0, .checkpoint]).retained = 10 := by decide
+    (exec ⟨false, false, true⟩ {} hist3).stime = 23 ∧ sumT (logOf {} hist3).retained = 10 := by decide
 
-/-- PARTIAL (a fact about the model for a loop that does NOT re-arm its start — no sampler does that any more; gap: no
-upper bound, the time may be over-counted as in the counter-example above): even then sampling time is never lost or
-reset; it is at least the retained ticks. -/
+def hist4 : List Op := [.resume, .enterLoop, .run 1 5 0, .checkpoint, .kill, .down 10, .resume, .checkpoint, .enterLoop,
+  .run 1 2 0, .checkpoint]
+
+/-- The hypothesis `ckptInLoop` is needed, and the current sources do not enforce it: a checkpoint written between the
+resume and the loop entry (the signal handler `FlowSampler.safe_exit → ns.checkpoint()`) finds the pickled start, so it
+adds the segment before the resumed checkpoint again plus the whole down-time (here 22 instead of 7) — known finding
+`BaseNestedSampler.checkpoint:between-resume-and-loop-entry:down-time-counted`, reproduced on the real code by the
+harness.  With a resume that re-armed the start (`rearmOnResume`) the same history is accounted correctly. -/
+theorem sampling_time_cumulative_fails_without_checkpoint_in_loop :
+    ckptInLoop false false hist4 = false
+    ∧ (exec codeCfg {} hist4).stime = 22 ∧ sumT (logOf {} hist4).retained = 7
+    ∧ (exec ⟨true, true, true⟩ {} hist4).stime = 7 := by decide
+
+/-- PARTIAL (gap: no upper bound — with a stale start or a checkpoint before the loop entry the time may be over-counted,
+as in the two counter-examples above): whatever the configuration and wherever the checkpoints are written, sampling time
+is never lost or reset; it is at least the retained in-loop ticks. -/
 theorem sampling_time_stale_start_partial (c : Cfg) (hf : c.freshModel = true) (h : List Op) :
     let s := exec c {} h
     let l := logOf {} h
@@ -306,18 +390,23 @@ theorem sampling_time_stale_start_partial (c : Cfg) (hf : c.freshModel = true) (
   simp only [St.current, Log.retained, sumT_append]
   omega
 
-example : (exec ⟨false, true⟩ {} [.launch, .run 1 5 0, .checkpoint, .kill, .down 4, .launch, .run 1 2 0]).current = 16 := by decide
+example : (exec ⟨false, false, true⟩ {} [.resume, .enterLoop, .run 1 5 0, .checkpoint, .kill, .down 4, .resume, .enterLoop,
+    .run 1 2 0]).current = 16 := by decide
 
-/-- A sampler that has just checkpointed, with its accounts on file. -/
+example : sumT (logOf {} hist4).retained ≤ (exec codeCfg {} hist4).current :=
+  (sampling_time_stale_start_partial codeCfg rfl hist4 (by decide)).1
+
+/-- A sampler inside the loop that has just checkpointed, with its accounts on file. -/
 def Settled (s : St) : Prop :=
-  s.alive = true ∧ s.start = s.clock ∧ ∃ sv, s.file = some sv ∧ sv.evals = s.mEvals ∧ sv.ltime = s.mLtime ∧ sv.stime = s.stime
+  s.alive = true ∧ s.inLoop = true ∧ s.start = s.clock
+    ∧ ∃ sv, s.file = some sv ∧ sv.evals = s.mEvals ∧ sv.ltime = s.mLtime ∧ sv.stime = s.stime
 
-/-- kill, wait, resume, checkpoint — without running -/
-def cycles (ds : List Nat) : List Op := ds.flatMap fun d => [.kill, .down d, .launch, .checkpoint]
+/-- kill, wait, resume, enter the loop, checkpoint — without running -/
+def cycles (ds : List Nat) : List Op := ds.flatMap fun d => [.kill, .down d, .resume, .enterLoop, .checkpoint]
 
-/-- Resuming is idempotent on the accounts: any number of kill → down-time → resume → checkpoint cycles without
-sampling in between leaves evaluations, likelihood time, sampling time and current sampling time unchanged (fresh
-model, re-armed start). -/
+/-- Resuming is idempotent on the accounts: any number of kill → down-time → resume → loop entry → checkpoint cycles
+without sampling in between leaves evaluations, likelihood time, sampling time and current sampling time unchanged
+(fresh model, start re-armed at the loop entry, checkpoint written inside the loop). -/
 theorem resume_idempotent_accounts (c : Cfg) (hf : c.freshModel = true) (hr : c.resetStart = true) (ds : List Nat) :
     ∀ s : St, Settled s →
       let s' := exec c s (cycles ds)
@@ -326,12 +415,12 @@ theorem resume_idempotent_accounts (c : Cfg) (hf : c.freshModel = true) (hr : c.
   | nil => intro s hs; simpa [cycles, exec] using hs
   | cons d ds ih =>
     intro s hs
-    obtain ⟨ha, hst, sv, hfile, he, hl, ht⟩ := hs
-    have hstep : Settled (exec c s [.kill, .down d, .launch, .checkpoint])
-        ∧ (exec c s [.kill, .down d, .launch, .checkpoint]).mEvals = s.mEvals
-        ∧ (exec c s [.kill, .down d, .launch, .checkpoint]).mLtime = s.mLtime
-        ∧ (exec c s [.kill, .down d, .launch, .checkpoint]).stime = s.stime
-        ∧ (exec c s [.kill, .down d, .launch, .checkpoint]).current = s.current := by
+    obtain ⟨ha, hil, hst, sv, hfile, he, hl, ht⟩ := hs
+    have hstep : Settled (exec c s [.kill, .down d, .resume, .enterLoop, .checkpoint])
+        ∧ (exec c s [.kill, .down d, .resume, .enterLoop, .checkpoint]).mEvals = s.mEvals
+        ∧ (exec c s [.kill, .down d, .resume, .enterLoop, .checkpoint]).mLtime = s.mLtime
+        ∧ (exec c s [.kill, .down d, .resume, .enterLoop, .checkpoint]).stime = s.stime
+        ∧ (exec c s [.kill, .down d, .resume, .enterLoop, .checkpoint]).current = s.current := by
       simp [exec, step, hfile, hf, hr, Settled, St.current, he, hl, ht, hst]
     obtain ⟨hS, h1, h2, h3, h4⟩ := hstep
     have := ih _ hS
@@ -340,15 +429,23 @@ theorem resume_idempotent_accounts (c : Cfg) (hf : c.freshModel = true) (hr : c.
     simp only [exec] at h1 h2 h3 h4
     exact ⟨g0, g1.trans h1, g2.trans h2, g3.trans h3, g4.trans h4⟩
 
-example : Settled (exec ⟨true, true⟩ {} [.launch, .run 10 4 2, .checkpoint]) := by
-  refine ⟨by decide, by decide, ⟨10, 2, 4, 0⟩, by decide, by decide, by decide, by decide⟩
+/-- the state right after the first in-loop checkpoint of a run is settled (used to apply `resume_idempotent_accounts`) -/
+theorem settled_after_first_checkpoint : Settled (exec codeCfg {} [.resume, .enterLoop, .run 10 4 2, .checkpoint]) := by
+  refine ⟨by decide, by decide, by decide, ⟨10, 2, 4, 0⟩, by decide, by decide, by decide, by decide⟩
 
-/-- Both hypotheses of `resume_idempotent_accounts` are needed: with the stale start one empty cycle already changes
-the sampling time (4 → 12 with 4 ticks of down-time), with a reused model object the evaluations double. -/
+/-- the theorem applied: three empty cycles with different down-times leave the sampling time of a settled sampler alone -/
+example : (exec codeCfg (exec codeCfg {} [.resume, .enterLoop, .run 10 4 2, .checkpoint]) (cycles [4, 0, 7])).stime
+    = (exec codeCfg {} [.resume, .enterLoop, .run 10 4 2, .checkpoint]).stime :=
+  (resume_idempotent_accounts codeCfg rfl rfl [4, 0, 7] _ settled_after_first_checkpoint).2.2.2.1
+
+/-- The hypotheses of `resume_idempotent_accounts` are needed: with a loop that does not re-arm the start one empty cycle
+already changes the sampling time (4 → 12 with 4 ticks of down-time); with a reused model object the evaluations double;
+and a cycle whose checkpoint is written BEFORE the loop entry (signal handler) adds the down-time as well (4 → 12). -/
 theorem resume_idempotent_accounts_fails_without :
-    (exec ⟨false, true⟩ {} ([.launch, .run 10 4 2, .checkpoint] ++ cycles [4])).stime = 12
-    ∧ (exec ⟨true, false⟩ {} ([.launch, .run 10 4 2, .checkpoint] ++ cycles [4])).mEvals = 20
-    ∧ (exec ⟨true, true⟩ {} ([.launch, .run 10 4 2, .checkpoint] ++ cycles [4, 0, 7])).stime = 4
-    ∧ (exec ⟨true, true⟩ {} ([.launch, .run 10 4 2, .checkpoint] ++ cycles [4, 0, 7])).mEvals = 10 := by decide
+    (exec ⟨false, false, true⟩ {} ([.resume, .enterLoop, .run 10 4 2, .checkpoint] ++ cycles [4])).stime = 12
+    ∧ (exec ⟨true, false, false⟩ {} ([.resume, .enterLoop, .run 10 4 2, .checkpoint] ++ cycles [4])).mEvals = 20
+    ∧ (exec codeCfg {} [.resume, .enterLoop, .run 10 4 2, .checkpoint, .kill, .down 4, .resume, .checkpoint, .enterLoop]).stime = 12
+    ∧ (exec codeCfg {} ([.resume, .enterLoop, .run 10 4 2, .checkpoint] ++ cycles [4, 0, 7])).stime = 4
+    ∧ (exec codeCfg {} ([.resume, .enterLoop, .run 10 4 2, .checkpoint] ++ cycles [4, 0, 7])).mEvals = 10 := by decide
 
 end NessaiVerif.C12
